@@ -45,19 +45,19 @@ CHECKS = {
         "Histories as in C21 with the clock fault kinds enabled; oracle: no panic in any server task (panic hook + connection liveness) and BadTimeout only after the timeout elapsed since the request timestamp.",
         "Wall clock through the verif::clock seam following the paused tokio clock plus injected skew.", "7/C26"),
 "C27": ("exploration", "deterministic simulation: seeded histories with 2-4 subscriptions of distinct priorities all ready and scarce publish requests; per-server-pass order oracle",
-        "Oracle: within one server pass (same response timestamp) notifications are in descending priority and the timer pass starts with the highest-priority subscription that has undelivered data.",
+        "ModifySubscription priority changes and the boundary priorities 0 / 255 included. Oracle: within one server pass (same response timestamp) notifications are in descending priority and the timer pass starts with the highest-priority subscription that has undelivered data.",
         "Readiness is derived from the harness's own writes; clock-jump runs are excluded.", "7/C27"),
 "C40": ("exploration", "deterministic simulation: seeded publish/ack/republish/delete histories; retained-set reference model",
-        "Acknowledgements {valid, duplicate, unknown sequence, unknown subscription}, Republish {last, first, acknowledged, unknown}, subscription deletion; oracle: republished == original, unavailable after a Good ack, unknown ack -> BadSequenceNumberUnknown, retained while well below the retransmission capacity.",
-        "Availability only asserted while the number of unconfirmed messages stays below 3 x subscriptions (capacity is 4 x).", "7/C40"),
+        "Acknowledgements {valid, duplicate in a later request, duplicate inside one request, newest only, unknown sequence, unknown subscription}, Republish {last, first, acknowledged, unknown}, subscription deletion; oracle: republished == original, unavailable after a Good ack, unknown ack -> BadSequenceNumberUnknown, retained while well below the retransmission capacity.",
+        "Availability is asserted while the retransmission queue cannot have been over its capacity of 4 x subscriptions, counting unread responses, subscriptions that may have expired, and subscriptions created or deleted since the last read; keep-alive numbers are never acknowledged or republished (they carry no notification).", "7/C40"),
 "C28": ("exploration", "deterministic simulation: seeded reference insert/delete/node-delete histories from 1-2 sessions (real services) and an application actor (AddressSpace API); triple-set reference model compared after every step",
-        "Oracle: forward references, inverse references and has_reference of every node of a small universe equal the model after each operation; opposite-direction pairs are generated deliberately.",
+        "Oracle: forward references, inverse references and has_reference of every node of a small universe equal the model after each operation; opposite-direction pairs, several reference types between one pair and nodes nothing refers to yet are generated deliberately.",
         "Requests are serialised by the address-space write lock (interleaving at request granularity); observation restricted to the harness universe and three reference types.", "7/C28"),
 "C29": ("exploration", "deterministic simulation: seeded small reference graphs with aggregation cycles and shared children, then DeleteNodes via service or API; termination + dangling-reference oracle",
         "Oracle: the call returns (worker process alive, watchdog), the node and everything it transitively aggregates are gone and no reference mentions a removed node. A stack overflow kills the worker and is reported as a crash with the plan as replay.",
-        "Crash detection relies on worker process isolation; delete_target_references=true.", "7/C29"),
+        "Crash detection relies on worker process isolation; delete_target_references=true; some references are deleted again before the node delete, some nodes have no other referrer.", "7/C29"),
 "C34": ("exploration", "deterministic simulation: seeded AddNodes/AddReferences/DeleteNodes/DeleteReferences histories with node ids planted just ahead of the server's id counter; result-vs-state oracle",
-        "Oracle: Good AddNodes => node exists and the given parent has a forward reference of the given type to it; any Bad item leaves the state digest unchanged; server-assigned ids never equal an existing node id; a non-local parent is never accepted.",
+        "Oracle: Good AddNodes => node exists and the given parent has a forward reference of the given type to it; any Bad item leaves the state digest unchanged; server-assigned ids never equal an existing node id; a non-local parent is never accepted. Directed add / delete (with or without target references) / add-again histories of one id are mixed in.",
         "State digest covers the harness universe (known, requested, returned and candidate ids).", "7/C34"),
 "C19": ("exploration", "deterministic simulation: seeded session/request/time-out/channel histories from raw clients (1-2 connections) against the real server tasks on virtual time; authorisation reference model + state digest",
         "Oracle (one direction): a request whose token the model does not authorise (unknown, null, closed, unactivated, other connection, other channel, timed out) gets a ServiceFault and leaves the state digest unchanged; CloseSession invalidates the token.",
@@ -66,14 +66,14 @@ CHECKS = {
         "Oracle (one direction): ActivateSession Good => the configured condition for that token kind holds for the session's current nonce; a token encrypted for an earlier nonce is never accepted.",
         "Anonymous, user-name (plain / encrypted) and X.509 user tokens (two X.509 users, a subset allowed per endpoint; right key, wrong key, wrong nonce, no signature) over None and secured channels (RSA 2048); replays of the token alone and of the whole request; a successful activation on a secured channel must rotate the nonce.", "7/C20"),
 "C30": ("exploration", "deterministic simulation: seeded Browse/BrowseNext/release/reuse histories interleaved with address-space modifications from 1-2 sessions; paged-equals-unpaged and continuation-point lifecycle oracle",
-        "Oracle: concatenated pages == unpaged Browse in the same state; a point works once; invalid after release or any structural change; at most 20 points per session stay valid (dedicated overflow runs).",
+        "Oracle: concatenated pages == unpaged Browse in the same state; a point works once; invalid after release or any structural change; at most 20 points per session stay valid (dedicated overflow runs). Modifications include DeleteNodes with and without target references.",
         "Nodes have fewer than 255 references; wall clock strictly increasing so last_modified timestamps never tie.", "7/C30"),
 "C32": ("exploration", "deterministic simulation: seeded Read/Write histories (types, index ranges, attribute ids) from two sessions while an application actor flips access levels; register reference model",
-        "Oracle: Good write => user access level allows it and type compatible; Good write observed by next Read (ranges modelled for 1-D arrays, ASCII strings, byte strings); rejected write changes nothing; every request returns a status, no panic.",
-        "Non-ASCII strings and multi-dimensional ranges: only no-panic and unchanged-on-reject.", "7/C32"),
+        "Oracle: Good write => the user access level has CurrentWrite (history bits vary independently) and the type is compatible; a Good write is what the next Read returns (ranges modelled for 1-D arrays, ASCII strings, byte strings), what it stores has the variable's data type (Byte[] of rank 1 / 0 / -2 vs ByteString), a Good index-range write is readable with the same range; a rejected write or a write to another attribute changes nothing; every attribute id of variables, objects, methods, types and unknown nodes returns a status, no panic.",
+        "Non-ASCII strings and multi-dimensional ranges: no-panic, unchanged-on-reject and read-back-after-Good only.", "7/C32"),
 "C33": ("exploration", "deterministic simulation (swarm): structure-aware random requests of every session-bound service plus ActivateSession with crafted tokens, interleaved with timer ticks and raised events, against the real server tasks; crash / liveness oracle with process isolation",
         "Oracle: every request is answered by a response or ServiceFault, no server task panics (panic hook), the worker process survives (stack overflow / abort detection, watchdog) and a trailing Read still succeeds.",
-        "Requests are structurally valid (typed structures through the real encoder); 12% of runs use a signed channel so sessions have a real nonce.", "7/C33"),
+        "Requests are structurally valid (typed structures through the real encoder): fully random items plus near-valid items with exactly one unusual field, event-filter operands whose paths resolve to real nodes of every class; 12% of runs use a signed channel so sessions have a real nonce.", "7/C33"),
 "C02": ("exploration", "deterministic simulation with a corrupting channel: well-formed requests of every service (and hand-assembled Write / Call / CreateMonitoredItems / Read-response bodies) are corrupted in flight (bit flips, byte and length overwrites, truncation, type-id swaps, nesting prefixes up to 200000 levels of DataValue>Variant, Variant>Variant, DiagnosticInfo inner-info, ExtensionObject, arrays of arrays) and delivered to the real server reader loop or, from a scripted server, to the real client transport, both on a 2 MiB-stack thread; a process-wide allocation counter brackets every delivered message",
         "Oracle: no panic, no worker death (stack overflow / allocation failure), peak allocation per message <= 64 x max message size + 8 MiB, nesting beyond the decoding depth is not accepted, the receiver still serves a fresh connection.",
         "Policy None. Not byte-exhaustive: mutations are sampled; the chunk / security layer is C09, frame sizes are C10.", "7/C02"),
@@ -96,14 +96,14 @@ CHECKS = {
         "Oracle: Good => not in rejected/, byte-identical trusted copy (or trust-unknown and no copy), key length valid for the policy, and unless skip-verify: inside validity at the simulated time (when check-time), host and URI match; unknown and untrusted => in rejected/ afterwards; accepted => not in rejected/ afterwards.",
         "Runs as root: permission faults not injectable. Wall clock through the verif clock seam (fixed mode).", "7/C18"),
 "C35": ("exploration", "deterministic simulation, client side: the real AsyncSecureChannel + client TcpTransport event loop on a paused seeded tokio runtime against a scripted raw server (verif::net connector seam); seeded schedules of request submissions with individual deadlines and per-request server behaviour (prompt / slow multi-chunk / late / silent / duplicate / unknown id / abort / undecodable) plus server- or client-side close; history oracle over completion times and statuses",
-        "Oracle: every request completes by the end of the run; Ok carries the response built for that request; BadTimeout never before the deadline nor when a complete response was delivered >1 ms before it; abort => BadCommunicationError; closed-class statuses only after a scripted close cause; the transport never closes without a scripted cause (unknown / expired / duplicate responses are ignored).",
+        "Oracle: every request completes by the end of the run; Ok carries the response built for that request; BadTimeout never before the deadline nor when a complete response was delivered >1 ms before it; abort => BadCommunicationError; closed-class statuses only after a scripted close cause and always error statuses; BadTimeout not later than 10 ms + a quarter of the time-out after the deadline (virtual time); the transport never closes without a scripted cause (unknown / expired / duplicate responses are ignored).",
         "Policy None. The scripted server sends the chunks of one message contiguously. Observation outside the property: TransportState::close can wait forever (see DESIGN.md).", "7/C35"),
 "C36": ("exploration", "deterministic simulation, client side: the real client Session with its session and subscription event loops against a scripted raw server that decides per arriving PublishRequest (notification / keep-alive / service fault / silence / late / held); the server-side history of acknowledgements is checked after a fault-free quiescence phase",
         "Oracle: every data notification delivered in time is acknowledged by a later publish request; an acknowledgement carried by a successfully answered request is never carried again (nor twice in one request); acknowledgements carried by a failed request are carried again later.",
-        "Policy None, anonymous. Connection loss is outside the property's quantifier and not injected. Success/failure of a request is decided with a 3 ms margin around the client's deadline; in between either is accepted.", "7/C36"),
+        "Policy None, anonymous. Keep-alives in both legal encodings (null and empty array). Connection loss is outside the property's quantifier and not injected. Success/failure of a request is decided with a 3 ms margin around the client's deadline; in between either is accepted.", "7/C36"),
 "C38": ("exploration", "deterministic simulation: (a) lock seam in record mode under the two-connection service swarm with timer ticks, disconnects and an application actor: per-run lock graph over instances with modes, call sites and gate locks, searched for mode- and gate-feasible cycles; (b) baton threads (L3): two real OS threads, one connection each, run real server code; every blocking lock acquisition is a scheduling point decided by a seeded scheduler over a reader/writer lock model; a state with every unfinished thread parked and none grantable is a deadlock and the choice sequence is the replay schedule",
         "Oracle: no feasible cycle in the held->acquired graph (Read-vs-Read edges do not block; two edges serialised by a common exclusively-held gate lock cannot coexist); no re-entrant acquisition of one instance when a writer exists; no reachable deadlock under the baton scheduler.",
-        "Server construction and application set-up are not recorded (no task exists yet). Signatures name the lock types of the cycle and the file in which the out-of-order outer lock was taken (documented order ServerState, Session, AddressSpace is used for naming only). 8 known findings (Call and CreateSession paths), see DESIGN.md.", "7/C38"),
+        "Requests under the other connection's session token are part of the swarm (a Session instance locked from two connection tasks). Server construction and application set-up are not recorded (no task exists yet). Signatures name the lock types of the cycle and the file in which the out-of-order outer lock was taken (documented order ServerState, Session, AddressSpace is used for naming only). 8 known findings (Call and CreateSession paths), see DESIGN.md.", "7/C38"),
 "C14": ("exploration", "deterministic simulation: seeded interleavings of requests, renew-begin / renew-end and forged-token requests from a raw client on secured channels against the real server tasks (token-epoch reference model, acceptance observed through the request's effect), and of the real client's own renewals against a scripted server that answers held requests under the new token",
         "Oracle: a request secured under the server's current token, or the previous one while nothing newer has been received, takes effect; a request under a never-issued token (foreign keys or unknown token id) never does.",
         "Two halves: server side (raw client, all policies x Sign/SignAndEncrypt, RSA 2048) and client side (every third run: the real AsyncSecureChannel renews at 75 % of a 1-4 s lifetime while the scripted server still owes responses and answers them under the new token in the same burst as, or shortly after, its OpenSecureChannel response).", "7/C14"),
